@@ -26,11 +26,13 @@ CLASSES = {
     "uint": ("5", "int"), "sint": ("-5", "int"), "ffrac": ("0.5", "float"), "fwhole": ("5.0", "float"), "fexp": ("1e-07", "float"),
     "boolw": ("True", "bool"), "nonew": ("None", None), "bare": ("mnist", "str"), "quoted": ('"mnist"', "str"), "code": ("len(xs)", "str"),
     "empty": ("", "str"),
+    # what Python's own repr writes for large floats; a quoted text that looks like a number / a boolean is still a string
+    "fexpp": ("1e+16", "float"), "qnum": ('"5"', "str"), "qbool": ('"True"', "str"),
 }
-NUMERIC = ("uint", "sint", "ffrac", "fwhole", "fexp")
+NUMERIC = ("uint", "sint", "ffrac", "fwhole", "fexp", "fexpp")
 # an expression default (written back-tick quoted, the reader strips the ticks before the ladder) fits every declared type: the
 # type describes the value of the expression; it must come through as the text it is
-FITS = {"int": ("uint", "sint", "code"), "float": NUMERIC + ("code",), "complex": NUMERIC + ("code",), "bool": ("boolw", "code"), "str": ("bare", "quoted", "code")}
+FITS = {"int": ("uint", "sint", "code"), "float": NUMERIC + ("code",), "complex": NUMERIC + ("code",), "bool": ("boolw", "code"), "str": ("bare", "quoted", "code", "qnum", "qbool")}
 TEXT_STAYS = ("code",)
 LITERAL_EVAL = {"uint": "int", "sint": "int", "ffrac": "float", "fwhole": "float", "fexp": "float", "boolw": "bool", "nonew": "NoneType", "quoted": "str"}
 
@@ -58,13 +60,43 @@ class _Break(Exception):
     pass
 
 
+def classify(rep):
+    """the class a text belongs to (what Python's own int / float / literal syntax make of it)"""
+    import re
+    if rep == "":
+        return "empty"
+    if rep in ("True", "False"):
+        return "boolw"
+    if rep == "None":
+        return "nonew"
+    if re.fullmatch(r"\d+", rep):
+        return "uint"
+    if re.fullmatch(r"[+-]\d+", rep):
+        return "sint"
+    try:
+        f = float(rep)
+        if rep.strip() == rep and rep.lower() not in ("nan", "inf", "infinity", "-inf", "+inf"):
+            return "fexp" if "e" in rep.lower() else ("fwhole" if f.is_integer() else "ffrac")
+    except ValueError:
+        pass
+    if len(rep) >= 2 and rep[0] == rep[-1] and rep[0] in "'\"":
+        return "quoted"
+    return "code" if "(" in rep else "bare"
+
+
 class Text(object):
-    """a str whose content belongs to class `cls`"""
-    def __init__(self, cls):
+    """a str: one representative text `rep` of the class `cls` it belongs to.  String operations are carried out on the
+    representative (what `"-5".isdecimal()` or `'"5"'[1:-1]` give is part of the language, not of the repository)."""
+    def __init__(self, cls, rep=None):
         self.cls = cls
+        self.rep = CLASSES[cls][0] if rep is None else rep
+
+    @staticmethod
+    def of(rep):
+        return Text(classify(rep), rep)
 
     def __repr__(self):
-        return "text:%s" % self.cls
+        return "text:%s:%r" % (self.cls, self.rep)
 
 
 class Val(object):
@@ -76,6 +108,16 @@ class Val(object):
         return "%s<-%s" % (self.typ, self.cls)
 
 
+class Truthy(object):
+    """an object that is only ever tested for truth (a regular-expression match)"""
+
+
+class Unk(object):
+    """a value the interpreter could not compute for a variable the verdict does not depend on; using it is 'unresolved'"""
+    def __init__(self, why):
+        self.why = why
+
+
 class Builtin(object):
     def __init__(self, name):
         self.name = name
@@ -85,14 +127,12 @@ def _convert(ctor, v, at):
     """what int(v) / float(v) / complex(v) / bool(v) / str(v) give"""
     if isinstance(v, Text):
         c = v.cls
-        if ctor == "int":
-            if c in ("uint", "sint"):
-                return Val("int", c)
-            raise _Exc("ValueError", at)
-        if ctor in ("float", "complex"):
-            if c in NUMERIC:
-                return Val(ctor, c)
-            raise _Exc("ValueError", at)
+        if ctor in ("int", "float", "complex"):
+            try:
+                {"int": int, "float": float, "complex": complex}[ctor](v.rep)
+            except ValueError:
+                raise _Exc("ValueError", at)
+            return Val(ctor, classify(v.rep.strip()))
         if ctor == "bool":
             return Val("bool", c)
         if ctor == "str":
@@ -104,15 +144,17 @@ def _convert(ctor, v, at):
             return Val("bool", v.cls)
         if ctor == "str":
             return Val("str", v.cls)
-        if ctor == "int" and v.typ == "str":
-            return _convert("int", Text(v.cls), at)
-        if ctor == "float" and v.typ == "str":
-            return _convert("float", Text(v.cls), at)
+        if ctor in ("int", "float") and v.typ == "str":
+            return _convert(ctor, Text(v.cls), at)
         if ctor in ("int", "float") and v.typ in ("NoneType",):
             raise _Exc("TypeError", at)
     if isinstance(v, bool) or v is None:
         if ctor == "bool":
             return bool(v)
+        if ctor == "int" and isinstance(v, bool):
+            return int(v)
+    if isinstance(v, int) and ctor == "int":
+        return v
     raise _Unknown("conversion %s(%r)" % (ctor, v), at)
 
 
@@ -121,6 +163,7 @@ class Ladder(object):
         self.prog, self.folder = prog, folder
         self.depth = 0
         self.handling = []
+        self.tracked = None
 
     # ------------------------------------------------------------------ expressions
     def const_container(self, e, at):
@@ -143,11 +186,25 @@ class Ladder(object):
             return e.value
         if isinstance(e, ast.Name):
             if e.id in env:
+                if isinstance(env[e.id], Unk):
+                    raise _Unknown("%s (%s)" % (e.id, env[e.id].why), e)
                 return env[e.id]
             b = self.prog.lookup(e.id, e)
             if b[0] == "builtin" and e.id in ("int", "float", "complex", "bool", "str"):
                 return Builtin(e.id)
             raise _Unknown("name %s" % e.id, e)
+        if isinstance(e, ast.UnaryOp) and isinstance(e.op, (ast.USub, ast.UAdd)):
+            v = self.ev(e.operand, env)
+            if isinstance(v, (int, float)) and not isinstance(v, bool):
+                return -v if isinstance(e.op, ast.USub) else v
+            raise _Unknown("sign of %r" % (v,), e)
+        if isinstance(e, ast.BinOp) and isinstance(e.op, (ast.Add, ast.Sub)):
+            a, b = self.ev(e.left, env), self.ev(e.right, env)
+            if all(isinstance(x, int) for x in (a, b)):
+                return a + b if isinstance(e.op, ast.Add) else a - b
+            if isinstance(e.op, ast.Add) and all(isinstance(x, (str, Text)) for x in (a, b)):
+                return Text.of((a.rep if isinstance(a, Text) else a) + (b.rep if isinstance(b, Text) else b))
+            raise _Unknown("arithmetic", e)
         if isinstance(e, ast.UnaryOp) and isinstance(e.op, ast.Not):
             v = self.ev(e.operand, env)
             if isinstance(v, bool):
@@ -155,14 +212,25 @@ class Ladder(object):
             raise _Unknown("not of %r" % (v,), e)
         if isinstance(e, ast.BoolOp):
             is_and = isinstance(e.op, ast.And)
-            last = None
+            v = None
             for x in e.values:
-                last = self.truth(self.ev(x, env), x)
-                if last is (not is_and):
-                    return last
-            return last
+                v = self.ev(x, env)
+                if self.truth(v, x) is (not is_and):
+                    return v
+            return v
         if isinstance(e, ast.IfExp):
             return self.ev(e.body if self.truth(self.ev(e.test, env), e.test) else e.orelse, env)
+        if isinstance(e, ast.Compare) and len(e.ops) > 1:
+            parts, left = [], e.left
+            for op, right in zip(e.ops, e.comparators):
+                parts.append(ast.Compare(left=left, ops=[op], comparators=[right]))
+                left = right
+            for p_ in parts:
+                ast.copy_location(p_, e)
+                p_._parent = getattr(e, "_parent", None)
+                if not self.truth(self.ev(p_, env), e):
+                    return False
+            return True
         if isinstance(e, ast.Compare) and len(e.ops) == 1:
             op, l, r = e.ops[0], e.left, e.comparators[0]
             if isinstance(op, (ast.Is, ast.IsNot)) and isinstance(r, ast.Constant) and r.value is None:
@@ -177,13 +245,22 @@ class Ladder(object):
                 names = {n.id for n in ast.walk(r) if isinstance(n, ast.Name)} | {n.attr for n in ast.walk(r) if isinstance(n, ast.Attribute)}
                 res = vt in names
                 return res if isinstance(op, (ast.In, ast.Is, ast.Eq)) else not res
+            if isinstance(op, (ast.In, ast.NotIn)) and isinstance(self.folder.fold(r, {}, e), str):
+                # membership in a string constant is a substring test
+                hay = self.folder.fold(r, {}, e)
+                v = self.ev(l, env)
+                needle = v.rep if isinstance(v, Text) else v
+                if not isinstance(needle, str):
+                    raise _Exc("TypeError", e)
+                res = needle in hay
+                return res if isinstance(op, ast.In) else not res
             if isinstance(op, (ast.In, ast.NotIn)):
                 v = self.ev(l, env)
                 cs = self.const_container(r, e)
                 if cs is None:
                     raise _Unknown("membership in %s" % src(r, 30), e)
                 if isinstance(v, Text):
-                    res = CLASSES[v.cls][0] in cs
+                    res = v.rep in cs
                 elif v is None or isinstance(v, (str, int, float, bool)):
                     res = v in cs
                 else:
@@ -191,14 +268,22 @@ class Ladder(object):
                 return res if isinstance(op, ast.In) else not res
             if isinstance(op, (ast.Eq, ast.NotEq)):
                 a, b = self.ev(l, env), self.ev(r, env)
-                if isinstance(a, Text) and isinstance(b, str):
-                    res = CLASSES[a.cls][0] == b
-                elif not isinstance(a, (Text, Val)) and not isinstance(b, (Text, Val)):
-                    res = a == b
-                else:
+                a = a.rep if isinstance(a, Text) else a
+                b = b.rep if isinstance(b, Text) else b
+                if isinstance(a, (Val, Truthy)) or isinstance(b, (Val, Truthy)):
                     raise _Unknown("comparison", e)
+                res = a == b
                 return res if isinstance(op, ast.Eq) else not res
+            if isinstance(op, (ast.Lt, ast.LtE, ast.Gt, ast.GtE)):
+                a, b = self.ev(l, env), self.ev(r, env)
+                if isinstance(a, (int, float)) and isinstance(b, (int, float)) and not isinstance(a, bool) and not isinstance(b, bool):
+                    return {ast.Lt: a < b, ast.LtE: a <= b, ast.Gt: a > b, ast.GtE: a >= b}[type(op)]
             raise _Unknown("comparison %s" % src(e, 30), e)
+        if isinstance(e, ast.Subscript) and isinstance(e.value, ast.Name) and isinstance(env.get(e.value.id), dict):
+            k = self.ev(e.slice, env)
+            if k in env[e.value.id]:
+                return env[e.value.id][k]
+            raise _Exc("KeyError", e)
         if isinstance(e, ast.Subscript):
             d = e.value
             if isinstance(d, ast.Name) and d.id not in env:
@@ -213,11 +298,20 @@ class Ladder(object):
                 raise _Exc("KeyError", e)
         if isinstance(e, ast.Subscript):
             v = self.ev(e.value, env)
-            if isinstance(v, Text) and isinstance(e.slice, (ast.Constant, ast.UnaryOp)):
-                try:
-                    return CLASSES[v.cls][0][ast.literal_eval(e.slice)]
-                except IndexError:
-                    raise _Exc("IndexError", e)
+            if isinstance(v, (Text, str)):
+                rep = v.rep if isinstance(v, Text) else v
+                if isinstance(e.slice, ast.Slice):
+                    bounds = [None if b is None else self.ev(b, env) for b in (e.slice.lower, e.slice.upper, e.slice.step)]
+                    if any(b is not None and (isinstance(b, bool) or not isinstance(b, int)) for b in bounds):
+                        raise _Unknown("slice bounds %r" % (bounds,), e)
+                    return Text.of(rep[slice(*bounds)])
+                i = self.ev(e.slice, env)
+                if isinstance(i, int) and not isinstance(i, bool):
+                    try:
+                        return rep[i]
+                    except IndexError:
+                        raise _Exc("IndexError", e)
+                raise _Unknown("index %r" % (i,), e)
             if isinstance(v, Val) or v is None:
                 raise _Exc("TypeError", e)
             raise _Unknown("subscript of %r" % (v,), e)
@@ -236,40 +330,69 @@ class Ladder(object):
         if v is None:
             return False
         if isinstance(v, Text):
-            return bool(CLASSES[v.cls][0])
+            return bool(v.rep)
         if isinstance(v, Val) and v.typ in ("float", "int", "complex"):
             raise _Unknown("truthiness of a number", at)
-        if isinstance(v, str):
+        if isinstance(v, (str, int)):
             return bool(v)
+        if isinstance(v, Truthy):
+            return True
         raise _Unknown("truthiness of %r" % (v,), at)
 
     def call(self, e, env):
         f = e.func
+        if isinstance(f, ast.Attribute) and f.attr in ("match", "fullmatch", "search"):
+            pat, flags, subject = None, 0, None
+            base = f.value
+            if isinstance(base, ast.Name) and self.prog.lookup(base.id, e)[0] == "ext" and self.prog.ext_name(base, e) == "re" and len(e.args) >= 2:
+                pat, subject = self._const_str(e.args[0], e), self.ev(e.args[1], env)
+                flags = self._re_flags(e.args[2:] + [k.value for k in e.keywords])
+            elif isinstance(base, ast.Name) and base.id not in env:
+                b = self.prog.lookup(base.id, e)
+                if b[0] == "value" and isinstance(b[2], ast.Call) and isinstance(b[2].func, ast.Attribute) and b[2].func.attr == "compile" and b[2].args and e.args:
+                    pat, subject = self._const_str(b[2].args[0], b[2]), self.ev(e.args[0], env)
+                    flags = self._re_flags(b[2].args[1:] + [k.value for k in b[2].keywords])
+            if pat is not None and isinstance(subject, (Text, str)):
+                import re
+                rep = subject.rep if isinstance(subject, Text) else subject
+                return Truthy() if getattr(re, f.attr)(pat, rep, flags) else None
         # methods
         if isinstance(f, ast.Attribute) and not (isinstance(f.value, ast.Name) and self.prog.lookup(f.value.id, e)[0] in ("module", "ext")):
             recv = self.ev(f.value, env)
-            if isinstance(recv, Text):
-                if f.attr in ("isdecimal", "isdigit", "isnumeric") and not e.args:
-                    return recv.cls == "uint"
-                if f.attr in ("lstrip", "strip") and len(e.args) == 1 and isinstance(e.args[0], ast.Constant) and isinstance(e.args[0].value, str) \
-                        and set(e.args[0].value) <= set("+- "):
-                    return Text("uint") if (recv.cls == "sint" and "-" in e.args[0].value) else recv
-                if f.attr in ("strip", "lstrip", "rstrip") and not e.args:
-                    return recv
-                if f.attr == "startswith" and len(e.args) == 1 and isinstance(e.args[0], ast.Constant) and e.args[0].value in ("-", "+", ("-", "+"), ("+", "-")):
-                    if recv.cls in ("uint", "boolw", "nonew", "bare", "quoted"):
-                        return False
-                    if recv.cls == "sint":
-                        return "-" in e.args[0].value
-                    raise _Unknown("sign of a float literal", e)
-                if f.attr == "format":
-                    return Val("str", recv.cls)
+            if isinstance(recv, (Text, str)) and f.attr != "format":
+                rep = recv.rep if isinstance(recv, Text) else recv
+                args_ = [self.ev(a, env) for a in e.args]
+                args_ = [a.rep if isinstance(a, Text) else a for a in args_]
+                if e.keywords or not all(isinstance(a, (str, int, tuple)) and not isinstance(a, bool) for a in args_):
+                    raise _Unknown("str.%s arguments" % f.attr, e)
+                if f.attr in ("isdecimal", "isdigit", "isnumeric", "isalpha", "isalnum", "isspace", "islower", "isupper", "startswith", "endswith", "count", "find", "index"):
+                    try:
+                        return getattr(rep, f.attr)(*args_)
+                    except ValueError:
+                        raise _Exc("ValueError", e)
+                    except TypeError:
+                        raise _Unknown("str.%s" % f.attr, e)
+                if f.attr in ("strip", "lstrip", "rstrip", "lower", "upper", "casefold", "title", "capitalize", "replace", "removeprefix", "removesuffix", "expandtabs"):
+                    try:
+                        return Text.of(getattr(rep, f.attr)(*args_))
+                    except TypeError:
+                        raise _Unknown("str.%s" % f.attr, e)
                 raise _Unknown("str.%s" % f.attr, e)
+            if isinstance(recv, Text) and f.attr == "format":
+                return Val("str", recv.cls)
             if isinstance(recv, Val):
                 if f.attr == "is_integer" and not e.args and recv.typ in ("float", "int"):
                     return recv.cls in ("uint", "sint", "fwhole")
                 raise _Unknown("%s.%s" % (recv.typ, f.attr), e)
             if isinstance(recv, str) and f.attr == "format":
+                a_ = [self.ev(a, env) for a in e.args]
+                k_ = {k.arg: self.ev(k.value, env) for k in e.keywords if k.arg}
+                un = lambda x: x.rep if isinstance(x, Text) else x
+                if all(isinstance(un(x), (str, int)) and not isinstance(x, bool) for x in list(a_) + list(k_.values())) and all(k.arg for k in e.keywords):
+                    try:
+                        return Text.of(recv.format(*[un(x) for x in a_], **{k: un(v) for k, v in k_.items()}))
+                    except (IndexError, KeyError):
+                        raise _Exc("IndexError", e)
                 return Val("str", "bare")
             raise _Unknown("method %s of %r" % (f.attr, recv), e)
         if isinstance(f, ast.Name) and f.id == "isinstance" and len(e.args) == 2 and self.prog.lookup("isinstance", e)[0] == "builtin":
@@ -285,7 +408,7 @@ class Ladder(object):
         args = [self.ev(a, env) for a in e.args]
         if isinstance(f, ast.Name) and f.id == "len" and len(args) == 1 and self.prog.lookup("len", e)[0] == "builtin":
             if isinstance(args[0], Text):
-                return len(CLASSES[args[0].cls][0])
+                return len(args[0].rep)
             if isinstance(args[0], str):
                 return len(args[0])
             if isinstance(args[0], Val) or args[0] is None:
@@ -295,9 +418,13 @@ class Ladder(object):
             if en == "ast.literal_eval" and len(args) == 1:
                 v = args[0]
                 if isinstance(v, Text):
-                    if v.cls in LITERAL_EVAL:
-                        return None if LITERAL_EVAL[v.cls] == "NoneType" else Val(LITERAL_EVAL[v.cls], v.cls)
-                    raise _Exc("ValueError", e)
+                    try:
+                        r = ast.literal_eval(v.rep)
+                    except ValueError:
+                        raise _Exc("ValueError", e)
+                    except SyntaxError:
+                        raise _Exc("SyntaxError", e)
+                    return None if r is None else Val(type(r).__name__, classify(v.rep.strip()))
                 raise _Unknown("literal_eval of %r" % (v,), e)
         fv = None
         if isinstance(f, ast.Name) and f.id in env:
@@ -315,7 +442,9 @@ class Ladder(object):
                 t = tg[0]
                 pn = t.params()
                 if len(args) <= len(pn):
-                    env2 = dict(zip(pn, args))
+                    a_ = t.node.args
+                    env2 = {q: d.value for q, d in zip(pn[len(pn) - len(a_.defaults):], a_.defaults) if isinstance(d, ast.Constant)}
+                    env2.update(zip(pn, args))
                     self.depth += 1
                     try:
                         self.block(t.node.body, env2)
@@ -333,6 +462,21 @@ class Ladder(object):
         names = {n.id for n in ast.walk(type_expr) if isinstance(n, ast.Name)} | {n.attr for n in ast.walk(type_expr) if isinstance(n, ast.Attribute)}
         return name in names or "Exception" in names or "BaseException" in names or (name in ("KeyError", "IndexError") and "LookupError" in names)
 
+    def _const_str(self, e, at):
+        v = self.folder.fold(e, {}, at)
+        return v if isinstance(v, str) else None
+
+    def _re_flags(self, nodes):
+        import re
+        fl = 0
+        for n in nodes:
+            for x in ast.walk(n):
+                if isinstance(x, ast.Attribute) and x.attr in ("I", "IGNORECASE"):
+                    fl |= re.I
+                elif isinstance(x, ast.Attribute) and x.attr in ("X", "VERBOSE"):
+                    fl |= re.X
+        return fl
+
     def _literal_seq(self, e, env):
         """the tuple / list display an iterable denotes: written in place, or a module constant"""
         if isinstance(e, ast.Name) and e.id not in env:
@@ -346,7 +490,12 @@ class Ladder(object):
             if isinstance(s, ast.Expr) and isinstance(s.value, ast.Constant):
                 continue
             if isinstance(s, ast.Assign) and len(s.targets) == 1 and isinstance(s.targets[0], ast.Name):
-                env[s.targets[0].id] = self.ev(s.value, env)
+                try:
+                    env[s.targets[0].id] = self.ev(s.value, env)
+                except _Unknown as u:
+                    if s.targets[0].id == self.tracked:
+                        raise
+                    env[s.targets[0].id] = Unk(u.why)  # e.g. an offset computed from positions: only a later use of it matters
             elif isinstance(s, ast.If):
                 self.block(s.body if self.truth(self.ev(s.test, env), s.test) else s.orelse, env)
             elif isinstance(s, ast.With) and len(s.items) == 1 and isinstance(s.items[0].context_expr, ast.Call) \
@@ -374,7 +523,7 @@ class Ladder(object):
                     self.block(s.orelse, env)
             elif isinstance(s, ast.Return):
                 raise _Return(None if s.value is None else self.ev(s.value, env))
-            elif isinstance(s, ast.Pass):
+            elif isinstance(s, (ast.Pass, ast.Import, ast.ImportFrom)):
                 continue
             elif isinstance(s, ast.Continue):
                 raise _Continue()
@@ -421,7 +570,7 @@ def _find_ladder(fi):
         if isinstance(r, ast.Return) and isinstance(r.value, ast.Tuple) and len(r.value.elts) == 2 and isinstance(r.value.elts[1], ast.Name):
             var = r.value.elts[1].id
     if var is None:
-        return None, []
+        return None, [], []
     body = fi.node.body
     start = None
     for i, s in enumerate(body):
@@ -442,13 +591,27 @@ def _find_ladder(fi):
                     and any(isinstance(a, ast.Name) and a.id == var for a in s.value.args) and isinstance(s.value.func, (ast.Name, ast.Attribute)):
                 tg = [t for t in PROG[0].resolve_expr_fn(s.value.func, s.value) if isinstance(t, FunctionInfo)]
                 if len(tg) == 1 and converts(tg[0]):
-                    return var, [s]
-        return var, []
+                    return var, [s], _pre(body, i, var)
+        return var, [], []
     end = start + 1
     while end < len(body) and not any(isinstance(x, ast.Return) for x in ast.walk(body[end])) and var in names_in(body[end]) \
             and any(isinstance(t, ast.Name) and t.id == var and isinstance(t.ctx, ast.Store) for t in ast.walk(body[end])):
         end += 1
-    return var, body[start:end]
+    return var, body[start:end], _pre(body, start, var)
+
+
+def _pre(body, start, var):
+    """the straight-line statements in front of the ladder that still shape the text (strip decoration, cut a trailing bracket,
+    unquote): back to the loop that scanned the value"""
+    i = start
+    while i > 0 and not isinstance(body[i - 1], (ast.For, ast.While, ast.FunctionDef, ast.Return)) and not any(isinstance(x, ast.Return) for x in ast.walk(body[i - 1])):
+        i -= 1
+    pre = body[i:start]
+    # only from the first statement that rewrites the variable
+    for k, st in enumerate(pre):
+        if any(isinstance(t, ast.Name) and t.id == var and isinstance(t.ctx, ast.Store) for t in ast.walk(st)):
+            return pre[k:]
+    return []
 
 
 def rule_type_ladder(prog, rep, tier, anchor="defaults_utils.extract_default", typ_param="typ"):
@@ -456,7 +619,7 @@ def rule_type_ladder(prog, rep, tier, anchor="defaults_utils.extract_default", t
     escapes it."""
     fi = prog.fn(anchor)
     PROG[0] = prog
-    var, stmts = _find_ladder(fi)
+    var, stmts, pre = _find_ladder(fi)
     if not stmts:
         raise AnalysisError("TYPE-LADDER: the conversion ladder (a conditional that applies int / float / literal_eval to the extracted default) was not found in %s" % anchor)
     folder = Folder(prog)
@@ -473,11 +636,23 @@ def rule_type_ladder(prog, rep, tier, anchor="defaults_utils.extract_default", t
             if cls == "empty":
                 continue  # the reader never extracts an empty text; the class exists for the writer-side rules
             inst = "%s text %r%s" % (cls, text, "" if typ is None else " declared %s" % typ)
-            env = {var: Text(cls)}
-            if typ_param in fi.params():
-                env[typ_param] = typ
-            lad = Ladder(prog, folder)
+            raw = "```%s```" % text if cls == "code" else text  # as the scan hands it over: an expression still wears its ticks
+
+            def fresh(rep_):
+                env_ = {var: Text(cls, rep_)}
+                if typ_param in fi.params():
+                    env_[typ_param] = typ
+                lad_ = Ladder(prog, folder)
+                lad_.tracked = var
+                return env_, lad_
+            env, lad = fresh(raw)
             try:
+                try:
+                    lad.block(pre, env)
+                    if not isinstance(env.get(var), Text):
+                        raise _Unknown("the text is no text any more in front of the ladder")
+                except (_Unknown, _Exc):
+                    env, lad = fresh(text)  # what stands in front of the ladder is not followed: start at the ladder, with the bare text
                 lad.block(stmts, env)
                 v = env.get(var)
                 got = "str" if isinstance(v, (Text, str)) else v.typ if isinstance(v, Val) else "NoneType" if v is None else type(v).__name__
@@ -504,7 +679,8 @@ def rule_type_ladder(prog, rep, tier, anchor="defaults_utils.extract_default", t
         raise AnalysisError("TYPE-LADDER: only %d (class, declared type) pairs could be followed through the ladder of %s" % (resolved, anchor))
 
 
-_CLS_WORDS = {"empty": "the empty string", "uint": "an unsigned integer", "sint": "a signed integer", "ffrac": "a float", "fwhole": "a whole-valued float", "fexp": "a float in exponent notation",
+_CLS_WORDS = {"fexpp": "a float as Python writes large ones", "qnum": "a quoted string that looks like a number", "qbool": "a quoted string that looks like a boolean",
+              "empty": "the empty string", "uint": "an unsigned integer", "sint": "a signed integer", "ffrac": "a float", "fwhole": "a whole-valued float", "fexp": "a float in exponent notation",
               "boolw": "a boolean", "nonew": "None", "bare": "an unquoted string", "quoted": "a quoted string", "code": "an expression, written back-tick quoted"}
 
 
@@ -546,3 +722,108 @@ def rule_quote_types(prog, rep, tier, anchor="pure_utils.quote"):
             rep.ob("QUOTE-TYPES", inst, "unresolved", loc(prog, u.at or fi.node), "not interpreted: %s" % u.why)
     if resolved < 4:
         raise AnalysisError("QUOTE-TYPES: only %d kinds of argument could be followed through %s" % (resolved, anchor))
+
+
+def rule_quote_pair(prog, rep, tier, writer="defaults_utils.set_default_doc", quoter="pure_utils.quote", unquoter="pure_utils.unquote"):
+    """QUOTE-PAIR (C01, C03, C06, C08): what the writer does to a string default when it quotes it, the reader's `unquote` undoes,
+    and `unquote` leaves alone what is not a quoted pair.  Run on representatives of the kinds of string a default can be
+    (a word, text with an inner double quote, with an apostrophe, with inner blanks, padded with blanks, a lone blank, a line
+    break, digits):  unquote(W(s)) == s for every way W the package quotes a default (the quoting helper, and the expression the
+    default sentence is filled with);  W(W(s)) == W(s);  unquote(s) == s when s is not a quoted pair."""
+    from sa.rules.hole import _announcement_holes, _name_alternatives, _passes_quoting
+    from sa.rules.table import _announce_reader
+    folder = Folder(prog)
+    qf, uf = prog.fn(quoter), prog.fn(unquoter)
+
+    def run_fn(fi, value):
+        lad = Ladder(prog, folder)
+        pn = fi.params()
+        a = fi.node.args
+        env = {pn[0]: value}
+        for q, d in dict(zip(pn[len(pn) - len(a.defaults):], a.defaults)).items():
+            if isinstance(d, ast.Constant):
+                env[q] = d.value
+        try:
+            lad.block(fi.node.body, env)
+            return None
+        except _Return as r:
+            return r.value
+
+    def run_expr(expr, fn, value):
+        lad = Ladder(prog, folder)
+        env = {}
+        for n in ast.walk(expr):
+            if isinstance(n, ast.Subscript) and isinstance(n.value, ast.Name) and isinstance(n.slice, ast.Constant) and n.slice.value == "default":
+                env[n.value.id] = {"default": value, "typ": "str", "doc": Text("bare")}
+            elif isinstance(n, ast.Name) and n.id in fn.params() and n.id not in env:
+                env[n.id] = value
+        return lad.ev(expr, env)
+
+    writers = [("%s" % quoter, lambda v: run_fn(qf, v), qf.node)]
+    R, casefold, _ = _announce_reader(prog, folder)
+    norm = (lambda s_: s_.casefold()) if casefold else (lambda s_: s_)
+    for fi in prog.region(prog.fn(writer)):
+        for c, hit, hole in _announcement_holes(fi, R, norm):
+            exprs = _name_alternatives(fi, hole.id, c) if isinstance(hole, ast.Name) else [hole]
+            for alt in [a for e_ in (exprs or [hole]) for a in _passes_quoting(prog, e_)]:
+                writers.append(("the value written behind %r in %s (%s)" % (hit.strip(), prog.owner_name(fi), src(alt, 40)), (lambda v, alt=alt, fi=fi: run_expr(alt, fi, v)), alt))
+    strings = ["mnist", 'say "hi"', "it's", "a b", " padded ", "5"]
+    plain = strings + [" ", "\n", ""]
+    resolved = 0
+
+    def text_of(v):
+        return v.rep if isinstance(v, Text) else v if isinstance(v, str) else None
+
+    for wname, w, wnode in writers:
+        for s_ in strings:
+            inst = "unquote(W(%r)) with W = %s" % (s_, wname)
+            try:
+                q1 = w(Text.of(s_))
+                t1 = text_of(q1)
+                if t1 is None:
+                    raise _Unknown("W gives %r" % (q1,))
+                back = text_of(run_fn(uf, Text.of(t1)))
+                twice = text_of(w(Text.of(t1)))
+                resolved += 1
+                if back != s_:
+                    rep.violation(Finding(
+                        "QUOTE-PAIR", prog.owner_name(enclosing_fn_of(prog, wnode)) if enclosing_fn_of(prog, wnode) else wname, "not-inverse:%s" % _kind_of(s_),
+                        "%s writes the default %r as %r and %s reads that back as %r: the string changes on the way through its quotes (the writer escapes or alters something the "
+                        "reader does not undo)" % (wname, s_, t1, unquoter, back), loc(prog, wnode)))
+                elif twice is not None and twice != t1:
+                    rep.violation(Finding(
+                        "QUOTE-PAIR", prog.owner_name(enclosing_fn_of(prog, wnode)) if enclosing_fn_of(prog, wnode) else wname, "not-idempotent:%s" % _kind_of(s_),
+                        "%s applied to its own result %r gives %r: every pass through the writer changes the text again" % (wname, t1, twice), loc(prog, wnode)))
+                else:
+                    rep.holds("QUOTE-PAIR", inst, loc(prog, wnode), "%r -> %r -> %r" % (s_, t1, back))
+            except _Exc as x:
+                resolved += 1
+                rep.violation(Finding("QUOTE-PAIR", wname, "raises:%s:%s" % (_kind_of(s_), x.name), "%s raises %s for the string default %r at `%s`" % (wname, x.name, s_, src(x.at, 40)), loc(prog, x.at)))
+            except (_Unknown, _Return) as u:
+                rep.ob("QUOTE-PAIR", inst, "unresolved", loc(prog, wnode), "not interpreted: %s" % getattr(u, "why", "return"))
+    for s_ in plain:
+        inst = "%s(%r) leaves a text that is not a quoted pair alone" % (unquoter, s_)
+        try:
+            back = text_of(run_fn(uf, Text.of(s_)))
+            resolved += 1
+            if back != s_:
+                rep.violation(Finding("QUOTE-PAIR", unquoter, "unquote-alters:%s" % _kind_of(s_),
+                                      "%s(%r) gives %r although the text is not a quoted pair: a default such as sep=' ' or end='\\n' changes when it is read" % (unquoter, s_, back), loc(prog, uf.node)))
+            else:
+                rep.holds("QUOTE-PAIR", inst, loc(prog, uf.node), "")
+        except _Exc as x:
+            resolved += 1
+            rep.violation(Finding("QUOTE-PAIR", unquoter, "raises:%s:%s" % (_kind_of(s_), x.name), "%s raises %s for %r at `%s`" % (unquoter, x.name, s_, src(x.at, 40)), loc(prog, x.at)))
+        except _Unknown as u:
+            rep.ob("QUOTE-PAIR", inst, "unresolved", loc(prog, uf.node), "not interpreted: %s" % u.why)
+    if resolved < 10:
+        raise AnalysisError("QUOTE-PAIR: only %d of the quote / unquote cases could be followed" % resolved)
+
+
+def _kind_of(s_):
+    return {"mnist": "word", 'say "hi"': "inner-double-quote", "it's": "apostrophe", "a b": "inner-blank", " padded ": "padded", "5": "digits", " ": "blank", "\n": "newline", "": "empty"}.get(s_, "text")
+
+
+def enclosing_fn_of(prog, node):
+    from sa.model import enclosing_fn
+    return enclosing_fn(node)
